@@ -41,6 +41,12 @@ func constName(v ssa.Value) string {
 func propC13(w *World, r *Report) {
 	e := NewEffects(w)
 	runDet(w, r, e, "C13")
+	if wf := w.Func("(*cff.Font).Write"); wf != nil {
+		RunFixpointCover(w, r, newBoundsRun(w), []*ssa.Function{wf})
+		r.Floor("fixpointcover", 1)
+	} else {
+		r.Fatal("(*cff.Font).Write does not resolve")
+	}
 	r.Rule("dicttypes: for every CFF DICT operator the Go type the writer stores (int32 / float64 / string, per operand) can carry what the reader extracts (getInt / getFloat / getString …): an operator the reader reads as a real must not be written from a float that was truncated to int32, and an operator the reader reads with getInt must not be written as a real (getInt ignores reals) || dictdefaults: where the writer omits an operator because the value equals a constant, that constant equals the default the reader substitutes || bigendian on package cff")
 	sp := w.SSAPkg[modPath+"/cff"]
 	if sp == nil {
